@@ -8,6 +8,8 @@
 From CL Require Import Base.StrLemmas Model.Lexer Model.Parser Proofs.LexerProofs
   Proofs.ParserSplit Proofs.ParserTotal Proofs.ParserSpans Model.EventBridge Proofs.ParserShape.
 From CL Require Model.Events.
+From CL Require Model.Analysis Model.AnalysisSpec Proofs.AnalysisTotal.
+From CL Require Import Proofs.ParseTotal.
 
 (* the token stream exists for every input: the fuel (one unit per character) never runs out *)
 Theorem C03_lexer_total : forall (U : N -> ucls) (s : str) (off : N), exists ts, lex_at U s off = Some ts.
@@ -105,4 +107,87 @@ Example C03_parser_shaped_inhabited :
 Proof.
   intros U cfg s H. destruct (events_ok U cfg s H) as (evs & E & _). exists evs.
   split; [exact E|]. exact (events_shaped U cfg s evs E).
+Qed.
+
+(* ---- the analysis pass (RecipeCollector, src/analysis/event_consumer.rs) returns ----
+   For every stream of the parser's grammar (complete or cut anywhere), every case folding, YAML
+   oracle, extension record [x], converter oracle ([unit_class], [find_iq]) and source text, the model
+   of the analysis pass with the current code ([cfgF]) reaches no [Panic] site: none of the
+   collector's `assert!`/`assert_eq!`, `panic!("End event without Start")`, `panic!("Content outside
+   block")`, table indexing, `self.input[span.range()]`, nor the fuel of the inline-quantity loop.
+   (Proofs/AnalysisTotal.v lists each site with the reason.)  Three hypotheses remain and are stated:
+   [iq_shrinks] - the find_inline_quantity oracle returns a remainder shorter than its argument (the
+   real function returns a strict suffix; a model that ran out of fuel would disagree with the
+   implementation in the correspondence run of C06); [ev_span_ok] - every component span is a slice
+   of the source text (proved of the parser: C04_event_spans_ok, used in C03_parse_total below);
+   and the bound: `step_counter += 1` on a u32 (event_consumer.rs:184) overflows in a debug build
+   after 2^32 - 1 steps of one section, so the number of End events must stay below 2^32 - 2. *)
+Theorem C03_analyse_total :
+  forall ci_key yaml_ok find_iq unit_class input x evs,
+    AnalysisTotal.iq_shrinks find_iq ->
+    Events.parser_shaped_prefix evs ->
+    Forall (AnalysisTotal.ev_span_ok input) evs ->
+    (N.of_nat (AnalysisTotal.ends evs) < 4294967294)%N ->
+    exists r, Analysis.analyse ci_key yaml_ok find_iq unit_class input x Analysis.cfgF evs = Done r.
+Proof.
+  intros ci_key yaml_ok find_iq unit_class input x evs Hq.
+  exact (AnalysisTotal.analyse_total ci_key yaml_ok find_iq unit_class input x Analysis.cfgF
+           eq_refl eq_refl Hq evs).
+Qed.
+Print Assumptions C03_analyse_total.
+
+(* the bound in the form "fewer than 2^32 - 2 events" *)
+Theorem C03_analyse_total_by_length :
+  forall ci_key yaml_ok find_iq unit_class input x evs,
+    AnalysisTotal.iq_shrinks find_iq ->
+    Events.parser_shaped_prefix evs ->
+    Forall (AnalysisTotal.ev_span_ok input) evs ->
+    (N.of_nat (length evs) < 4294967294)%N ->
+    exists r, Analysis.analyse ci_key yaml_ok find_iq unit_class input x Analysis.cfgF evs = Done r.
+Proof.
+  intros ci_key yaml_ok find_iq unit_class input x evs Hq Sh Sp L.
+  apply C03_analyse_total; auto. pose proof (AnalysisTotal.ends_le evs). lia.
+Qed.
+Print Assumptions C03_analyse_total_by_length.
+
+(* ---- the whole pipeline of CooklangParser::parse returns ----
+   [parse_model] (Proofs/ParseTotal.v) = analyse . abstract_events . events: PullParser::new(input,
+   extensions) piped into analysis::parse_events(events, input, ..).  For every source text [s],
+   every Unicode classification, every configuration of the current code (any extension set, debug
+   assertions on or off; [p_strict_escape] and [p_note_label_old] false = the two repaired sites), every
+   case folding, YAML oracle, converter oracle and extension record of the analysis pass, it returns a
+   value: no [Panic] site of the lexer, parser or collector model is reached and no fuelled loop runs
+   out.  Composition of C03_events_total, C03_parser_shaped, C04_event_spans_ok and C03_analyse_total;
+   the bound of C03_analyse_total is discharged by C03_events_ends_bound (at most one End event per
+   block, at most one block per token, at most one token per character), leaving "the source has
+   fewer than 2^32 - 3 characters": beyond that the u32 step counter of a debug build could overflow.
+   The remaining hypothesis [iq_shrinks] is about the oracle standing for find_inline_quantity. *)
+Theorem C03_events_ends_bound :
+  forall (U : N -> ucls) (cfg : pcfg) (s : str) (evs : list pevent),
+    events U cfg s = Done evs -> (AnalysisTotal.ends (abstract_events evs) <= S (length s))%nat.
+Proof. intros U cfg s evs H. rewrite ends_abstract. exact (events_ends_bound U cfg s evs H). Qed.
+Print Assumptions C03_events_ends_bound.
+
+Theorem C03_parse_total :
+  forall (U : N -> ucls) (cfg : pcfg) ci_key yaml_ok find_iq unit_class (x : Analysis.aext) (s : str),
+    p_strict_escape cfg = false -> p_note_label_old cfg = false ->
+    AnalysisTotal.iq_shrinks find_iq ->
+    (N.of_nat (length s) < 4294967293)%N ->
+    exists r, parse_model U cfg ci_key yaml_ok find_iq unit_class x s = Done r.
+Proof. exact parse_total. Qed.
+Print Assumptions C03_parse_total.
+
+(* the hypotheses are satisfiable: the current configuration and an oracle that finds no inline
+   quantity; then every source below the bound has a result *)
+Example C03_parse_total_inhabited :
+  exists cfg, p_strict_escape cfg = false /\ p_note_label_old cfg = false /\
+    AnalysisTotal.iq_shrinks (fun _ => None) /\
+    forall U ci_key yaml_ok unit_class x s, (N.of_nat (length s) < 4294967293)%N ->
+      exists r, parse_model U cfg ci_key yaml_ok (fun _ => None) unit_class x s = Done r.
+Proof.
+  exists {| p_ext := 0; p_debug := true; p_strict_escape := false; p_note_label_old := false; p_fm_anywhere := false |}.
+  split; [reflexivity|]. split; [reflexivity|].
+  assert (Q : AnalysisTotal.iq_shrinks (fun _ => None)) by (intros hay b a H; discriminate).
+  split; [exact Q|]. intros U ci_key yaml_ok unit_class x s L.
+  apply C03_parse_total; auto.
 Qed.
